@@ -14,6 +14,11 @@ EXPLANATION = (
     "block y at top level or nested in x); sources are generated from the choices, loaded through real loaders, rendered "
     "sync and async, and compared with a 25-line reference resolver."
 )
+TECHNIQUE = (
+    "symbolic execution with z3 (CrossHair) over choice variables (configurations, operation codes, schedule bits): the solver "
+    "enumerates the bounded structure space and certifies that no choice is left; the real liquid2 code then runs natively on "
+    "each chosen structure (nothing symbolic reaches it); counterexamples are replayed natively"
+)
 OUTSIDE = [
     "chains deeper than 3 (depth 4: quick with define/omit/super choices over one block name, thorough all 32^4) or with more than 2 block names",
     "block bodies other than literal tags + block.super + one nested block",
